@@ -9,27 +9,27 @@ TECH = "deterministic simulation with fault injection: seeded search over enviro
 
 CHECKS = {
     "C01": {
-        "text": "Scoped claim, seeded exploration with fault injection: for generated packages, the repo's corpus and a fixed list of probe packages the real CLI runs (a) fault-free under sampled schedules x all 64 option combinations - the outcome must be 'completed' (API JSON loadable, every written stub present) or the documented rejection, never an exception raised by the tool's own code, never a death, a livelock of the docstring-loader retry loop or a watchdog timeout; (b) with 1-2 injected write-side faults (ENOSPC/EACCES/EROFS/EIO/EMFILE at mkdir/touch/open/write/close, short writes; points stratified by file class and life-cycle step of a reference run) - the run terminates, a run that reports success has exactly the reference output (no silently lost or truncated file, including files whose close is left to the finaliser), a run that fails fails with the injected error itself (identity or explicit cause), not with a secondary internal error; (c) into an obstructed output directory - failure only with the file system's own OSError. The 'for all programs' quantifier is only sampled by the workload.",
+        "text": "Scoped claim, seeded exploration with fault injection: for generated packages, the repo's corpus and a fixed list of 65 probe modules the real CLI runs (a) fault-free under sampled schedules (hash seed, enumeration order, working directory incl. inside the package / a tests directory / a directory holding a decoy package of the same name / a read-only directory, path spellings, invocation style, hostile locale) x all 64 option combinations - the outcome must be 'completed' (API JSON loadable, every written stub present) or the documented rejection, never an exception raised by the tool's own code, a death, a livelock of the docstring-loader retry loop or a watchdog timeout; (b) with injected write-side faults (ENOSPC/EACCES/EROFS/EIO/EMFILE at mkdir/touch/open/write/close incl. short writes, transient or persistent, and Ctrl-C inside an I/O call; the first fault of every plan walks round-robin through all 32 (life-cycle step, kind, persistence) combinations, its place is stratified by file class) - the run terminates, a run that reports success has exactly the reference output (also for files whose close is left to the finaliser), a run that fails fails with the injected error itself (identity or explicit cause); (c) into an obstructed output directory - failure only with the file system's own OSError; (d) into a directory populated by an earlier complete, failed or killed run - the run completes with the reference output. The 'for all programs' quantifier is only sampled by the workload.",
         "design_ref": "DESIGN.md §5.1",
         "note": "Trusted: seams/fault injection of vsim/child.py, exception classification by innermost frame under <repo>/src/safeds_stubgen. Read-side faults are out of scope of the property ('any package the type checker can load'). Input forms outside the workload are not covered (a program fuzzer is a different technique); known crashing input forms found on the way were repaired by 'fix:' commits and are kept as probe packages.",
     },
     "C08": {
-        "text": "Seeded exploration: for each generated or corpus package the real CLI is run in fresh interpreters under the canonical schedule twice and under sampled schedule vectors (PYTHONHASHSEED, directory enumeration permutation, Module object-hash permutation, working directory incl. non-writable, invocation style/sys.path, path spellings incl. symlinked parents, environment/umask); the output trees must be byte-identical. Evidence of determinism on the explored schedules, not a proof over all 2^32 seeds x n! orders.",
+        "text": "Seeded exploration: for each generated or corpus package the real CLI is run in fresh interpreters under the canonical schedule twice and under sampled schedule vectors (PYTHONHASHSEED; directory enumeration permutation; Module object-hash permutation; 13 kinds of working directory incl. read-only, inside the package, inside a tests/docs sub-directory, next to a decoy package; invocation style / sys.path / PYTHONPATH; 7-9 spellings of source and output path incl. `..` detours, symlinked parents, `..` after a symlink, not-yet-existing nested output; environment incl. an uncoerced C locale with UTF-8 mode off, umask); the output trees must be byte-identical. Evidence of determinism on the explored schedules, not a proof over all 2^32 seeds x n! orders.",
         "design_ref": "DESIGN.md §5.2",
         "note": "Trusted: the sandbox/seam code in vsim/child.py and runner.py; mypy/griffe internals are real code but their own address-dependent behaviour is outside the seams. The workload (generated packages rich in ties + the repo's three test packages) bounds which ties are exercised.",
     },
     "C10": {
-        "text": "Seeded exploration at the file-system seam: for each package the real CLI runs under sampled working directories, source/output path spellings (relative, trailing slash, ./, detours, symlinked parents, not-yet-existing nested output), invocation styles, enumeration orders and both naming settings, plus one run per case with an injected I/O error or process death. From the complete mutation-event log and the final tree four clauses are judged: (1) every event on a stub/API path lies inside the resolved output directory and nothing appears elsewhere in the sandbox, also for failing/dying runs; (2) for every stub the directory spells the announced Python module path segment by segment and the base name is the module / the single re-exported declaration / the re-exported module alias; (3) no path is written twice with different texts, no append to a file not created in the same run; (4) the inventory is '<source-directory-name>__api.json'. Exploration evidence over the sampled trees and invocations.",
+        "text": "Seeded exploration at the file-system seam: for each package the real CLI runs under sampled working directories, source/output path spellings (relative, trailing slash, ./, `..` detours, symlinked parents, `..` after a symlink, not-yet-existing nested output), invocation styles, enumeration orders and both naming settings, one run per case with an injected I/O error or process death, and one second run into the populated directory. From the complete mutation-event log and the final tree four clauses are judged: (1) every event on a stub/API path lies inside the resolved output directory and nothing appears elsewhere in the sandbox, also for failing/dying runs; (2) for every stub the directory spells the announced Python module path segment by segment and the base name is the module / the single top-level re-exported declaration / the re-exported module alias; (3) no path is written twice with different texts, no append to a file not created in the same run; (4) the inventory is '<source-directory-name>__api.json'. Exploration evidence over the sampled trees and invocations.",
         "design_ref": "DESIGN.md §5.3",
         "note": "Trusted: the event log of vsim/child.py (io.open/os.open/os.mkdir/... seams) and the small header recogniser in vsim/oracles/c10.py (validated on the repo's corpus packages). Clause 2 is output-only: it relates each file's own header to its path, no model of the expected layout is built.",
     },
     "C13": {
-        "text": "Scoped claim (order/attachment clause only). Layer C: after one real get_api with a recording proxy around the docstring parser, the real queries (real mypy nodes) are replayed as seeded histories - random, A-B-A, documented->undocumented, homonymous short names, immediate repeats, locally shuffled and reversed walker order - on fresh parser instances; every answer, and every answer the real pipeline itself got, must equal the answer of a brand-new parser instance asked only that query (reference model of the one-entry cache). Layer E: generated docstrings carry a unique token per element/parameter/result/example/attribute; after a real run every token occurrence in the stubs must sit in the documentation comment of its own element. The style-equivalence clause and 'line for line' for arbitrary texts are input-only and are not decided.",
+        "text": "Scoped claim (order/attachment clause only). Layer C: after one real get_api with a recording proxy around the docstring parser, the real queries (real mypy nodes) are replayed as seeded histories - random, A-B-A, documented->undocumented, homonymous short names, immediate repeats, locally shuffled and reversed walker order, two interleaved parser instances - on fresh parser instances; every answer, and every answer the real pipeline itself got, must equal the answer of a brand-new parser instance asked only that query (reference model of the one-entry cache). Layer E: generated docstrings carry a unique token per element/parameter/result/example/attribute (plus tokens in string literals that document nothing and in overridden private-base methods, which must appear nowhere); after a real run every token occurrence must sit in the documentation comment of its own element, inside its own class (or a subclass that inherits it), on the `@param`/`@result` line of its own name, and multi-line descriptions must be present line for line. The style-equivalence clause and 'line for line' for arbitrary texts are input-only and are not decided.",
         "design_ref": "DESIGN.md §5.4",
         "note": "Trusted: the recording proxy and loader memo of vsim/child_doc.py (the griffe tree is shared between reference instances, the parser's own cache is always cold), the comment/declaration recogniser of vsim/oracles/c13.py. Queries whose cold reference raises are excluded.",
     },
     "C16": {
-        "text": "Seeded histories on state that survives between operations. (a) After one real get_api the child drives 8-13 seeded operations (full generations with either naming flag, single-module renderings, module sequences in permuted order, writes, JSON dumps) against ONE live API model; after every operation api.to_dict() must equal its initial value, every generation must equal the reference generation from a pristine copy, every module text must be independent of what was rendered before, and members inlined from one private base into several public classes must be rendered identically. (b) Histories RUN;RUN, RUN(injected I/O error);RUN and RUN(process death at a stratified mutation event);RUN over one output directory: the final tree must equal, path for path and byte for byte, the tree of a single clean run. Exploration evidence, not proof.",
+        "text": "Seeded histories on state that survives between operations. (a) After one real get_api the child drives 8-13 seeded operations (full generations with either naming flag in seeded order, single-module renderings, module sequences rendered by one generator in permuted order, writes of the same data once or twice, JSON dumps) against ONE live API model and against pristine copies; after every operation api.to_dict() must equal its initial value, every generation must equal the reference generation, every module text and every written tree must be independent of what was rendered or written before, members inlined from one private base into several public classes must be rendered identically and in all of them, and every generation made with the run's own flag must equal the stub files a fresh CLI process wrote (independent reference). (b) Histories RUN;RUN (same and other working directory/spelling), RUN(injected I/O error or Ctrl-C);RUN and RUN(process death at a stratified mutation event);RUN over one output directory: the final tree must equal, path for path and byte for byte, the tree of a single clean run; in the thorough tier every 24th case enumerates every crash point of its stratum. Exploration evidence, not proof.",
         "design_ref": "DESIGN.md §5.5",
         "note": "Trusted: seams and fault injection in vsim/child.py; the pristine deep copy of the model as stand-in for a fresh model (its to_dict() equality is checked in every case). Only process death is modelled, not power loss. Crash/fault points are sampled (stratified over mkdir/open/write/close events), not enumerated, in the quick tier.",
     },
